@@ -1031,12 +1031,13 @@ impl Engine for GroupEngine {
                 .filter(|v| {
                     matches!(
                         v.oracle,
-                        Oracle::L | Oracle::P | Oracle::Q | Oracle::D | Oracle::Conc | Oracle::WakerPanic | Oracle::Panic(_)
+                        Oracle::L | Oracle::P | Oracle::Q | Oracle::D | Oracle::DV | Oracle::Conc | Oracle::WakerPanic | Oracle::Panic(_)
                     )
                 })
                 .map(|v| world::Violation {
                     oracle: Oracle::Group(case.fam),
                     msg: format!("[{:?}] {}", v.oracle, v.msg),
+                    fam: None,
                 })
                 .collect();
             violations.extend(extra);
